@@ -167,6 +167,7 @@ func runCheck(o *Options) int {
 		fmt.Println("ERROR loading:", err)
 		return 2
 	}
+	w.graph() // call graph and effects are built once, up front, outside any scanning mode
 	loadSecs := time.Since(t0).Seconds()
 	var results []*FuncResult
 	nContracts := 0
